@@ -57,6 +57,8 @@ class InitMethod(MethodDescriptor):
                         instance_attr_spec = instance_metadata.attrs[attr]
                         if instance_attr_spec.owner is not parent:
                             continue
+                        if not instance_attr_spec.init:
+                            continue  # not a constructor argument of the parent
                         if attr in kwargs:
                             parent_kwargs[attr] = kwargs.pop(attr)
                             # Parent constructors do not copy incoming values (see
